@@ -237,9 +237,50 @@ func rawSection(pos string) (out string, ok bool) {
 	return
 }
 
-func rawCase(c *hx.Ctx, r *hx.Rng, malformed bool) {
+// fixedRawTexts: the boundary spellings every run replays first, whatever the seed: the key with each single
+// character written as an escape (lower and upper case hex digits), with every character escaped, with the KELVIN
+// SIGN, nested below an array, and the two documents of the seeded fast-path change. Marker H1 (and H2) by hand.
+func fixedRawTexts() []string {
+	const key = "private_key"
+	bs := "\\"
+	var out []string
+	for i := 0; i < len(key); i++ {
+		for _, f := range []string{"%04x", "%04X"} {
+			k := key[:i] + bs + "u" + fmt.Sprintf(f, key[i]) + key[i+1:]
+			out = append(out, `{"tls_context":{"status":true,"`+k+`":"zqH1qz"}}`)
+		}
+	}
+	all := ""
+	for i := 0; i < len(key); i++ {
+		all += bs + "u" + fmt.Sprintf("%04x", key[i])
+	}
+	out = append(out,
+		`{"`+all+`":"zqH1qz"}`,
+		`{"servers":[{"address":"127.0.0.1:1","tls_context":{"status":true,"`+bs+`u0070rivate_key":"zqH1qz"}},{"tls_context":{"PRIVATE`+bs+`u005FKEY":"zqH2qz"}}]}`,
+		`{"enable":true,"tls_context":{"status":true,"cert_chain":"/etc/cert.pem","private`+bs+`u005fkey":"zqH1qz"}}`,
+		`{"private_`+bs+`u212aey":"zqH1qz","a":[[{"private_\u212aey":"zqH2qz"}]]}`,
+		`{"tls_context":{"private_key":"zq`+bs+`u00481qz"}}`,
+		`[{"Private`+bs+`u005fKey":"zqH1qz"}]`,
+	)
+	return out
+}
+
+func rawCase(c *hx.Ctx, r *hx.Rng, malformed bool) { rawCaseOf(c, r, malformed, "") }
+
+func rawCaseOf(c *hx.Ctx, r *hx.Rng, malformed bool, fixed string) {
 	g := &gen{c: c, r: r, size: 1}
-	text, shape := g.rawText()
+	var text, shape string
+	if fixed != "" {
+		text, shape = fixed, "fixed"
+		for _, id := range []string{"H1", "H2"} {
+			if strings.Contains(text, id) || strings.Contains(text, id[1:]+"qz") {
+				g.markers = append(g.markers, id)
+				g.nH++
+			}
+		}
+	} else {
+		text, shape = g.rawText()
+	}
 	if malformed {
 		text, shape = g.spoil(text)
 		shape = "malformed:" + shape
@@ -248,7 +289,7 @@ func rawCase(c *hx.Ctx, r *hx.Rng, malformed bool) {
 	var asMap map[string]interface{}
 	isObject := json.Unmarshal([]byte(text), &asMap) == nil && asMap != nil
 	pos := "ext"
-	if isObject && r.Chance(40) {
+	if isObject && fixed == "" && r.Chance(40) {
 		pos = r.PickS([]string{"nf", "sf", "lf", "sink"})
 	}
 	c.Count("raw.pos=" + pos)
